@@ -24,6 +24,7 @@ func init() {
 }
 
 func runC10(c *Ctx) {
+	defer c05Comparisons(c, "C10.22")
 	defer ruleVendoredEqualsUpstream(c, "C10.21", vendoredScanner)
 	c10Lists(c, "C10.1")
 	c10EndOfInput(c, "C10.2")
